@@ -186,6 +186,9 @@ def run_unit(unit, variant, multiple_errors=20, extra_args=(), rlimit=None, inli
             m2 = re.search(r"`core::option::impl&%\d+::(map_or|filter|map|and_then|is_some_and)` is not supported", d.get("message", ""))
             if d.get("level") == "error" and m2:
                 desugar.add(m2.group(1))
+        if any(d.get("level") == "error" and "closures capturing a mutable reference" in d.get("message", "") for d in diags):
+            # the closure is usually the argument of an Option combinator: desugaring removes it
+            desugar.update({"map_or", "filter", "map", "and_then", "is_some_and"})
         if desugar:
             helpers["__desugar__"] = desugar
         if names:
